@@ -1,4 +1,11 @@
-"""Discharging obligations: z3 (python API) first, cvc5 CLI for what z3 leaves open."""
+"""Discharging obligations with solver *processes* (z3 5.1 CLI, cvc5 1.0.3).
+
+The python z3 API is used only to build terms and print SMT-LIB; every check
+runs in a child process, so a solver crash or hang can never take the checker
+down (it counts as `unknown` for that back end).  Pass 1: z3 with a short
+budget, many at a time.  Pass 2: what is left goes to cvc5 and z3 side by side
+with a long budget; the first definitive answer wins.
+"""
 from __future__ import annotations
 
 import concurrent.futures
@@ -9,124 +16,247 @@ import time
 import z3
 
 CVC5 = '/usr/bin/cvc5'
+Z3CLI = '/usr/local/bin/z3-new' if os.path.exists('/usr/local/bin/z3-new') else 'z3'
+WORKERS = int(os.environ.get('VERIF_WORKERS', '14'))
 
 
-def model_value(m, t):
-  try:
-    v = m.eval(t, model_completion=True)
-  except z3.Z3Exception:
+# ------------------------------------------------------------------ s-exprs
+def parse_sexprs(text):
+  toks = []
+  i, n = 0, len(text)
+  while i < n:
+    c = text[i]
+    if c in '()':
+      toks.append(c)
+      i += 1
+    elif c.isspace():
+      i += 1
+    elif c == '"':
+      j = i + 1
+      while j < n and text[j] != '"':
+        j += 1
+      toks.append(text[i:j + 1])
+      i = j + 1
+    elif c == '|':
+      j = text.index('|', i + 1)
+      toks.append(text[i:j + 1])
+      i = j + 1
+    else:
+      j = i
+      while j < n and not text[j].isspace() and text[j] not in '()':
+        j += 1
+      toks.append(text[i:j])
+      i = j
+  out = []
+  stack = [out]
+  for t in toks:
+    if t == '(':
+      new = []
+      stack[-1].append(new)
+      stack.append(new)
+    elif t == ')':
+      if len(stack) > 1:
+        stack.pop()
+    else:
+      stack[-1].append(t)
+  return out
+
+
+def sx_value(v):
+  """SMT-LIB value -> python (ints, bools, rationals, int/bool sequences)."""
+  if isinstance(v, str):
+    if v == 'true':
+      return True
+    if v == 'false':
+      return False
+    try:
+      return int(v)
+    except ValueError:
+      pass
+    try:
+      return float(v)
+    except ValueError:
+      return v
+  if not v:
     return None
-  return py_value(v)
-
-
-def py_value(v):
-  if z3.is_int_value(v):
-    return v.as_long()
-  if z3.is_true(v):
-    return True
-  if z3.is_false(v):
-    return False
-  if z3.is_rational_value(v):
-    n, d = v.numerator_as_long(), v.denominator_as_long()
-    return n / d if d != 1 else float(n)
-  if z3.is_algebraic_value(v):
-    return float(v.approx(20).as_fraction())
-  if z3.is_string_value(v):
-    return v.as_string()
-  if isinstance(v, z3.SeqRef):
-    # sequence literal: unit/concat/empty
+  h = v[0]
+  if h == '-' and len(v) == 2:
+    x = sx_value(v[1])
+    return -x if isinstance(x, (int, float)) else str(v)
+  if h == '/' and len(v) == 3:
+    a, b = sx_value(v[1]), sx_value(v[2])
+    try:
+      return a / b
+    except Exception:
+      return str(v)
+  if h == 'seq.unit':
+    return [sx_value(v[1])]
+  if h == 'seq.++':
     out = []
-    ok = _seq_items(v, out)
-    if ok:
-      return out
-  if z3.is_fp(v):
-    return str(v)
+    for x in v[1:]:
+      y = sx_value(x)
+      if not isinstance(y, list):
+        return str(v)
+      out.extend(y)
+    return out
+  if h == 'as' and len(v) >= 2 and v[1] == 'seq.empty':
+    return []
   return str(v)
 
 
-def _seq_items(v, out):
-  k = v.decl().kind()
-  if k == z3.Z3_OP_SEQ_EMPTY:
-    return True
-  if k == z3.Z3_OP_SEQ_UNIT:
-    out.append(py_value(v.arg(0)))
-    return True
-  if k == z3.Z3_OP_SEQ_CONCAT:
-    return all(_seq_items(v.arg(i), out) for i in range(v.num_args()))
-  return False
-
-
-def check_z3(ob, timeout_ms):
-  s = z3.Solver()
-  s.set('timeout', timeout_ms)
-  s.add(ob.formula())
-  t0 = time.time()
-  r = s.check()
-  dt = time.time() - t0
-  if r == z3.unsat:
-    return 'unsat', dt, None, None
-  if r == z3.sat:
-    m = s.model()
-    vals = {k: model_value(m, t) for k, t in ob.model_vars.items()}
-    return 'sat', dt, vals, str(m)[:4000]
-  return 'unknown', dt, None, s.reason_unknown()
-
-
-def to_smt2(ob):
+def to_smt2(ob, with_values=True):
   s = z3.Solver()
   s.add(ob.formula())
-  return s.to_smt2()
+  text = s.to_smt2()
+  if with_values and ob.model_vars:
+    terms = ' '.join(t.sexpr() for t in ob.model_vars.values() if z3.is_expr(t))
+    if terms:
+      text += f'\n(get-value ({terms}))\n'
+  return text
 
 
-def check_cvc5(ob, timeout_s):
-  smt = to_smt2(ob)
-  # z3 prints (declare-fun ...) with its own seq ops; cvc5 accepts seq.* in ALL logic
-  smt = '(set-logic ALL)\n' + smt
+def run_solver(cmd, text, timeout_s):
   with tempfile.NamedTemporaryFile('w', suffix='.smt2', delete=False) as f:
-    f.write(smt)
+    f.write(text)
     path = f.name
   t0 = time.time()
   try:
-    p = subprocess.run(
-        [CVC5, '--strings-exp', '--nl-ext-tplanes', f'--tlimit={int(timeout_s * 1000)}',
-         path], capture_output=True, text=True, timeout=timeout_s + 5)
-    out = p.stdout.strip().splitlines()
-    res = out[0] if out else 'unknown'
-    if res not in ('sat', 'unsat'):
-      res = 'unknown'
-    return res, time.time() - t0, (p.stdout + p.stderr)[:500]
+    p = subprocess.run(cmd + [path], capture_output=True, text=True,
+                       timeout=timeout_s + 10)
+    out = (p.stdout or '').strip()
+    first = out.splitlines()[0].strip() if out else ''
+    if first not in ('sat', 'unsat'):
+      note = (out + ' ' + (p.stderr or ''))[:200].replace('\n', ' ')
+      if p.returncode < 0:
+        note = f'solver process died with signal {-p.returncode}; ' + note
+      return 'unknown', time.time() - t0, note
+    return first, time.time() - t0, out
   except subprocess.TimeoutExpired:
     return 'unknown', time.time() - t0, 'timeout'
   finally:
-    os.unlink(path)
+    try:
+      os.unlink(path)
+    except OSError:
+      pass
+
+
+def model_from_output(ob, out):
+  if not ob.model_vars:
+    return {}
+  body = out.split('\n', 1)[1] if '\n' in out else ''
+  try:
+    sx = parse_sexprs(body)
+  except Exception:
+    return {}
+  pairs = sx[0] if sx and isinstance(sx[0], list) else []
+  names = [k for k, t in ob.model_vars.items() if z3.is_expr(t)]
+  vals = {}
+  for k, pr in zip(names, pairs):
+    if isinstance(pr, list) and len(pr) == 2:
+      vals[k] = sx_value(pr[1])
+  return vals
+
+
+def z3_cmd(t):
+  return [Z3CLI, f'-T:{max(1, int(t))}']
+
+
+def cvc5_cmd(t):
+  return [CVC5, '--strings-exp', '--nl-ext-tplanes', '--produce-models',
+          f'--tlimit={int(t * 1000)}']
 
 
 def discharge(obligations, tier='quick', log=None):
   """Fills ob.result = dict(status, backend, ms, model, note)."""
-  t_z3 = 10_000 if tier == 'quick' else 60_000
-  t_cvc = 30 if tier == 'quick' else 180
-  open_obs = []
+  t_short = 3 if tier == 'quick' else 10
+  t_long = 90 if tier == 'quick' else 400
+  # SMT-LIB text is produced in this thread (the z3 API is not thread safe)
+  texts = {id(ob): to_smt2(ob) for ob in obligations}
+
+  def p1(ob):
+    st, dt, out = run_solver(z3_cmd(t_short), texts[id(ob)], t_short)
+    return st, dt, out
+
+  with concurrent.futures.ThreadPoolExecutor(max_workers=WORKERS) as ex:
+    futs = {ex.submit(p1, ob): ob for ob in obligations}
+    done = {}
+    for fut in concurrent.futures.as_completed(futs):
+      done[id(futs[fut])] = fut.result()
   for ob in obligations:
-    st, dt, vals, note = check_z3(ob, t_z3)
-    ob.result = {'status': st, 'backend': 'z3', 'ms': round(dt * 1000, 1),
-                 'model': vals, 'note': note if st != 'unsat' else None}
-    if st == 'unknown':
-      open_obs.append(ob)
+    st, dt, out = done[id(ob)]
+    ob.result = {'status': st, 'backend': 'z3', 'ms': round(dt * 1000, 1), 'model': None,
+                 'note': None}
+    if st == 'sat':
+      ob.result['model'] = model_from_output(ob, out)
+      ob.result['note'] = out[:3000]
+    elif st == 'unknown':
+      ob.result['note'] = out
+  open_obs = [ob for ob in obligations if ob.result['status'] == 'unknown']
   if open_obs:
-    with concurrent.futures.ThreadPoolExecutor(max_workers=8) as ex:
-      futs = {ex.submit(check_cvc5, ob, t_cvc): ob for ob in open_obs}
+    def p2(ob):
+      return second_pass_text(texts[id(ob)], t_long)
+    with concurrent.futures.ThreadPoolExecutor(max_workers=max(2, WORKERS // 2)) as ex:
+      futs = {ex.submit(p2, ob): ob for ob in open_obs}
+      res = {}
       for fut in concurrent.futures.as_completed(futs):
-        ob = futs[fut]
-        st, dt, note = fut.result()
-        if st == 'unsat':
-          ob.result = {'status': 'unsat', 'backend': 'cvc5',
-                       'ms': round(dt * 1000, 1) + ob.result['ms'], 'model': None,
-                       'note': None}
-        elif st == 'sat':
-          # refuted by cvc5 only: no z3 model; keep as sat without values
-          ob.result = {'status': 'sat', 'backend': 'cvc5',
-                       'ms': round(dt * 1000, 1) + ob.result['ms'], 'model': {},
-                       'note': note}
-        else:
-          ob.result['note'] = f"z3: {ob.result['note']}; cvc5: {note}"
+        res[id(futs[fut])] = fut.result()
+    for ob in open_obs:
+      st, backend, dt, out = res[id(ob)]
+      ms = round(dt * 1000, 1) + ob.result['ms']
+      if st == 'unsat':
+        ob.result = {'status': 'unsat', 'backend': backend, 'ms': ms, 'model': None,
+                     'note': None}
+      elif st == 'sat':
+        ob.result = {'status': 'sat', 'backend': backend, 'ms': ms,
+                     'model': model_from_output(ob, out), 'note': out[:3000]}
+      else:
+        ob.result = {'status': 'unknown', 'backend': backend, 'ms': ms, 'model': None,
+                     'note': out}
   return obligations
+
+
+def second_pass_text(text, t_long):
+  return _second(text, t_long)
+
+
+def _second(text, t_long):
+  files = []
+  for prefix in ('', '(set-logic ALL)\n'):
+    with tempfile.NamedTemporaryFile('w', suffix='.smt2', delete=False) as f:
+      f.write(prefix + text)
+      files.append(f.name)
+  t0 = time.time()
+  procs = {}
+  try:
+    procs['z3'] = subprocess.Popen(z3_cmd(t_long) + [files[0]], stdout=subprocess.PIPE,
+                                   stderr=subprocess.STDOUT, text=True)
+    procs['cvc5'] = subprocess.Popen(cvc5_cmd(t_long) + [files[1]], stdout=subprocess.PIPE,
+                                     stderr=subprocess.STDOUT, text=True)
+    notes = {}
+    pending = dict(procs)
+    while pending and time.time() - t0 < t_long + 15:
+      for name, p in list(pending.items()):
+        if p.poll() is None:
+          continue
+        out = (p.stdout.read() or '').strip()
+        del pending[name]
+        first = out.splitlines()[0].strip() if out else ''
+        if first in ('sat', 'unsat'):
+          return first, name, time.time() - t0, out
+        notes[name] = out[:160].replace('\n', ' ')
+      time.sleep(0.02)
+    return 'unknown', 'z3+cvc5', time.time() - t0, '; '.join(
+        f'{k}: {notes.get(k) or "timeout"}' for k in sorted(procs))
+  finally:
+    for p in procs.values():
+      if p.poll() is None:
+        p.kill()
+      try:
+        p.wait(timeout=5)
+      except Exception:
+        pass
+    for pth in files:
+      try:
+        os.unlink(pth)
+      except OSError:
+        pass
